@@ -715,7 +715,7 @@ class PreDef(object):
     for ProdParser instances.
     """
     types = css_parser.cssproductions.CSSProductions
-    reHexcolor = re.compile(r'^\#(?:[0-9abcdefABCDEF]{3}|[0-9abcdefABCDEF]{6})$')
+    reHexcolor = re.compile(r'^\#(?:[0-9abcdefABCDEF]{3}|[0-9abcdefABCDEF]{6})\Z')
 
     @staticmethod
     def calc(toSeq=None, nextSor=False):
